@@ -104,7 +104,7 @@ def run_verus_unit(unit, tier, seed):
     fn_locs = [(f["name"], f["head"]) for f in built["fns"] if not f.get("is_type")]
     failures, undecided = verus.classify(r, built["text"], built["labels"], fn_locs)
     # a query that runs out of its resource limit is retried with a much larger one (other seeds) before it counts as undecided
-    for boost, s in ((5, 3), (20, 11)):
+    for boost, s in ((4, 3),):
         if not any("resource limit" in u.lower() or "rlimit" in u.lower() for u in undecided):
             break
         r = verus.run(path, rlimit * boost, (seed or 0) + s, 16)
@@ -139,6 +139,9 @@ def run_verus_unit(unit, tier, seed):
     res["undecided"] = undecided
     # vacuity: every extracted fn's entry assert(false) must fail
     tf, tu = verus.classify(rt, twin_text, {}, fn_names)
+    # the twin only has to show that each entry assert(false) FAILS; a loop or lemma of the twin that runs out of its resource
+    # limit afterwards says nothing about vacuity
+    tu = [x for x in tu if "resource limit" not in x.lower() and "rlimit" not in x.lower()]
     failed_lines = set(f["line"] for f in tf if f["kind"] == "assertion_failed")
     if tu and not res["undecided"]:
         res["undecided"] += ["vacuity twin: " + x for x in tu]
